@@ -409,6 +409,8 @@ def check(ctx):
 
 
 MUTANTS = [
+    Mutant("nested-generator-forgets-the-empty-line", HTTP, '        headerSequence = [version, b" ", code, b" ", reason, b"\\r\\n"]\n        for name, values in headers.getAllRawHeaders():\n            for value in values:\n                headerSequence.extend((name, b": ", value, b"\\r\\n"))\n        headerSequence.append(b"\\r\\n")\n        self.transport.writeSequence(headerSequence)',
+           '        def pieces():\n            yield from (version, b" ", code, b" ", reason, b"\\r\\n")\n            for name, values in headers.getAllRawHeaders():\n                for value in values:\n                    yield from (name, b": ", value, b"\\r\\n")\n\n        self.transport.writeSequence(list(pieces()))'),
     Mutant('token-regex-dollar-accepts-trailing-newline', ABNF, '    for c in b:\n        if c not in (\n            b"ABCDEFGHIJKLMNOPQRSTUVWXYZabcdefghijklmnopqrstuvwxyz"  # ALPHA\n            b"0123456789"  # DIGIT\n            b"!#$%&\'*+-.^_`|~"\n        ):\n            return False\n    return b != b""\n', '    return _TOKEN_RE.match(b) is not None\n', more=[(ABNF, '"""\n\n\ndef _istoken', '"""\n\nimport re\n\n_TOKEN_RE = re.compile(rb"[A-Za-z0-9!#$%&\'*+\\-.^_`|~]+$")\n\n\ndef _istoken')]),
     Mutant('name-cached-by-helper-before-validation', HDRS, '        if not _istoken(bytes_name):\n            raise InvalidHeaderName(bytes_name)\n\n        result = b"-".join([word.capitalize() for word in bytes_name.split(b"-")])\n', '        result = self._remember(name, bytes_name)\n        if not _istoken(result):\n            raise InvalidHeaderName(bytes_name)\n        return result\n\n    def _remember(self, name, bytes_name):\n        result = b"-".join([word.capitalize() for word in bytes_name.split(b"-")])\n'),
     Mutant("http10-keep-alive-made-persistent", HTTP, "                return True\n        else:\n            return False\n\n    def requestDone", "                return True\n        else:\n            return b\"keep-alive\" in tokens\n\n    def requestDone"),
@@ -443,6 +445,8 @@ MUTANTS = [
            more=[(HTTP, "            self.channel.writeHeaders(version, code, reason, self.responseHeaders)\n", "            self.channel.writeHeaders(version, code, reason, self.responseHeaders)\n            if self.etag is not None:\n                self.responseHeaders.setRawHeaders(b\"ETag\", [self.etag])\n")]),
 ]
 SILENT = [
+    Silent("header-block-from-nested-generator", HTTP, '        headerSequence = [version, b" ", code, b" ", reason, b"\\r\\n"]\n        for name, values in headers.getAllRawHeaders():\n            for value in values:\n                headerSequence.extend((name, b": ", value, b"\\r\\n"))\n        headerSequence.append(b"\\r\\n")\n        self.transport.writeSequence(headerSequence)',
+           '        def pieces():\n            yield from (version, b" ", code, b" ", reason, b"\\r\\n")\n            for name, values in headers.getAllRawHeaders():\n                for value in values:\n                    yield from (name, b": ", value, b"\\r\\n")\n            yield b"\\r\\n"\n\n        self.transport.writeSequence(list(pieces()))'),
     Silent("response-head-in-helper", HTTP, "            self.channel.writeHeaders(version, code, reason, self.responseHeaders)\n", "            self._emitHead(version, code, reason)\n",
            more=[(HTTP, "    def addCookie(\n", "    def _emitHead(self, version, code, reason):\n        self.channel.writeHeaders(version, code, reason, self.responseHeaders)\n\n    def addCookie(\n")]),
     Silent("header-value-helper", HDRS, "            encodedValues.append(_sanitizeLinearWhitespace(_v))", "            encodedValues.append(_clean(_v))",
